@@ -72,9 +72,62 @@ def always_beside_other_run(viol):
         pr.destroy()
 
 
+def killed_before_declaring(viol):
+    """A rebuild of a redo-always target, and one triggered by a watched path that appeared, are killed (whole tree)
+    before the script has declared anything again.  The old declarations are still what is known about the target: the
+    next redo-ifchange runs it — the always target in every later run, the other one because its watched path exists."""
+    import subprocess, signal, time as _t, os as _os
+    pr = Project()
+    try:
+        pr.write("a.do", 'echo ran >>a.runs\nif [ -e slow ]; then touch a.started; sleep 20; fi\nredo-always\necho a\n')
+        pr.write("w.do", 'echo ran >>w.runs\nif [ -e slow ]; then touch w.started; sleep 20; fi\nif [ -e F ]; then redo-ifchange F; else redo-ifcreate F; fi\necho w\n')
+        rc0, o, e = pr.run(["redo-ifchange", "a", "w"], timeout=30)
+        pr.write("F", "now\n")
+        pr.write("slow", "")
+        problems = []
+        for t in ("a", "w"):
+            p = subprocess.Popen(["redo-ifchange", t], cwd=pr.root, env=clean_env(), stdout=subprocess.DEVNULL, stderr=subprocess.DEVNULL, stdin=subprocess.DEVNULL, start_new_session=True)
+            for _ in range(100):
+                if _os.path.exists(pr.path(t + ".started")):
+                    break
+                _t.sleep(0.05)
+            else:
+                problems.append("%s.do did not start" % t)
+            try:
+                _os.killpg(p.pid, signal.SIGKILL)
+            except ProcessLookupError:
+                pass
+            p.wait()
+        pr.rm("slow")
+        _t.sleep(0.2)
+        before = {t: len((pr.read(t + ".runs") or b"").split()) for t in ("a", "w")}
+        rcs = [pr.run(["redo-ifchange", "a", "w"], timeout=30)[0], pr.run(["redo-ifchange", "a", "w"], timeout=30)[0]]
+        after = {t: len((pr.read(t + ".runs") or b"").split()) for t in ("a", "w")}
+        if any(rcs) or rc0 != 0:
+            problems.append("exit statuses %r" % ([rc0] + rcs))
+        if after["a"] - before["a"] != 2:
+            problems.append("the redo-always target a was executed %d time(s) by the two runs after its rebuild was killed (expected once per run)" % (after["a"] - before["a"]))
+        if after["w"] - before["w"] != 1:
+            problems.append("w (declared redo-ifcreate F; F appeared; the rebuild was killed before it declared anything) was executed %d time(s) by the runs after the kill (expected exactly once)" % (after["w"] - before["w"]))
+        if problems:
+            p = write_replay("C14", "killed-before-declaring", dict(kind="impl-monitor", problems=problems, runs_before=before, runs_after=after,
+                                                                   scenario="a.do: [sleep if slow]; redo-always.  w.do: [sleep if slow]; redo-ifcreate F (or redo-ifchange F when it exists).  build both; create F; rebuild each with `slow` present and kill the whole tree while the script sleeps; then redo-ifchange a w twice"))
+            viol.append(Violation("C14", p, "after a rebuild killed before the script declared anything: " + "; ".join(problems)))
+    finally:
+        pr.destroy()
+
+
 def run(ctx):
-    cov = deps_check.run_property(ctx, "C14", FEATURES["C14"], NCASES["C14"], WANT["C14"], known_matcher=KNOWN.get("C14"))
+    # a rebuild triggered by a watched path that appeared, or of a redo-always target, may be killed part-way: the old
+    # rows (flagged for deletion until the script re-declares them) must stay in force, or the target is never rebuilt again
+    import random, c10, depsgen
+    rng = random.Random(ctx["seed"] * 53 + 14)
+    killed = [c10.with_crashes(rng, depsgen.gen_case(rng, features=FEATURES["C14"])) for _ in range(120 if ctx["tier"] == "thorough" else 15)]
+    cov = deps_check.run_property(ctx, "C14", FEATURES["C14"], NCASES["C14"], WANT["C14"] | {"C01"}, known_matcher=c10.kill_window_matcher("C14"), extra_cases=killed)
+    cov["histories_with_killed_builds"] = len(killed)
     viol = ctx.setdefault("violations", [])
+    if not viol and not ctx.get("replay"):
+        killed_before_declaring(viol)
     if not viol and not ctx.get("replay"):
         ifcreate_after_cd(viol)
     if not viol and not ctx.get("replay"):
